@@ -144,8 +144,6 @@ def run(ctx, R):
                  "operator's definition, negated forms to the negation of the positive form's function")
     R.rule("r1u", "unary table: IsNull -> null test, IsNotNull -> its negation; binary tables never handle them")
     R.rule("r2", "operator-name tables (text -> Operation, Operation -> text) are inverse bijections over the 20 documented names")
-    R.rule("r3", "each ordering function (with its slow path) uses one comparison operator throughout")
-    R.rule("r4", "sign-branch constants of the mixed Int64/Uint64 slow paths; Null arms are false; equals is symmetric")
     R.rule("r5", "filter decisions are `within_nonexistent_optional || op(..)`; a missing tag value keeps the context")
 
     variants = adt_variants(C, OP)
@@ -188,6 +186,7 @@ def run(ctx, R):
                 unary.append((f, m, entries, vt))
     R.floor("r1", "binary dispatch tables over Operation", len(tables), 2)
     roles_cache = {}
+    semantic_ops = {}
 
     def role(path):
         if path not in roles_cache:
@@ -214,6 +213,11 @@ def run(ctx, R):
                     continue
                 want_role, want_neg = REFERENCE[v]
                 got = role(fn)
+                if want_role in ("<", "<=", ">", ">=", "eq"):
+                    # the meaning of these base functions is decided semantically by r6 (complete table of
+                    # the function against the operator's definition), not by the syntax of their bodies
+                    semantic_ops.setdefault({"eq": "=="}.get(want_role, want_role), set()).add(fn)
+                    got = want_role
                 R.check(got == want_role and neg == want_neg, "r1", "%s/%s" % (tname, v), where,
                         "Operation::%s dispatches to %s%s whose role is '%s'; the operator's definition needs %s'%s'"
                         % (v, "!" if neg else "", fn, got, "the negation of " if want_neg else "", want_role),
@@ -293,89 +297,59 @@ def run(ctx, R):
                 R.check(lits == [inv[v]], "r2", "name/%s" % v, C.loc(ms[0]["sp"]),
                         "operation_name(%s) = %s, documented name is %r" % (v, lits, inv[v]))
 
-    # ---- r3 / r4: ordering functions
-    ordering_fns = {}
-    for f, m, entries in tables:
-        for v in ("LessThan", "LessThanOrEqual", "GreaterThan", "GreaterThanOrEqual"):
-            for e in entries.get(v, []):
-                if e[0] not in (None, "PANIC"):
-                    ordering_fns[e[0]] = REFERENCE[v][0]
-    R.floor("r3", "ordering functions", len(ordering_fns), 4)
-    for path, want in sorted(ordering_fns.items()):
+    # ---- r6: complete decision tables of equals / < / <= / > / >= by abstract evaluation
+    R.rule("r6", "the functions dispatched for =, <, <=, >, >= give the mathematical result on boundary representatives "
+                 "of every integer class (mixed Int64/Uint64, negatives, beyond i64::MAX), on same-type scalars, and "
+                 "false for ordering against null; = is null-safe")
+    from tfv import absint as A
+    from rules import fvalue as F
+    import itertools
+    reps = F.representatives()
+    intr = F.intrinsics()
+    op_fn_pairs = sorted((op, fn) for op, fns in semantic_ops.items() for fn in fns)
+    R.floor("r6", "(operator, function) pairs evaluated", len(op_fn_pairs), 5)
+    pyop = {"<": lambda a, b: a < b, "<=": lambda a, b: a <= b, ">": lambda a, b: a > b, ">=": lambda a, b: a >= b,
+            "==": lambda a, b: a == b}
+    for op, path in op_fn_pairs:
         g = C.fn(path)
         if g is None:
-            R.fail("r3", "missing/%s" % path, "-", "ordering function %s has no body" % path)
+            R.fail("r6", "missing/%s" % op, "-", "no body for %s" % path)
             continue
-        cmps = operand_comparisons(C, g)
-        R.floor("r3", "comparisons in %s" % path.split("::")[-1], len(cmps), 8)
-        for i, (op, where_fn, n) in enumerate(cmps):
-            R.check(op == want, "r3", "%s/cmp#%d" % (path.split("::")[-1], i), C.loc(n["sp"]),
-                    "ordering function %s (operator %s) compares with `%s` in %s" % (path, want, op, where_fn))
-        # r4: Null arms false; sign constants
-        top = matches_over_tuple(g["body"], {FV}, 4)
-        if not top:
-            R.fail("r4", "anchor/%s" % path.split("::")[-1], C.loc(g["sp"]), "no (left,right) match in %s" % path)
+        bad = None
+        n = 0
+        unreachable_pairs = set()
+        try:
+            for (la, ma, na), (lb, mb, nb) in itertools.product(reps, reps):
+                va, vb = la.split("(")[0], lb.split("(")[0]
+                comparable = (va == vb) or ({va, vb} <= {"Int64", "Uint64"}) or "Null" in (va, vb)
+                if not comparable:
+                    continue       # the frontend never compares values of unrelated types (C09 G-OPTYPES)
+                if op != "==" and va == vb and va in ("Boolean", "Enum"):
+                    continue       # ordering on non-orderable types is rejected by the frontend / known finding under C09
+                ip = A.Interp(C, intrinsics=intr)
+                try:
+                    got = ip.truth(ip.call_fn(g, [ma(), mb()]))
+                except A.PanicReached as e:
+                    got = "PANIC:" + e.what
+                n += 1
+                if "Null" in (va, vb):
+                    want = (va == vb) if op == "==" else False
+                elif na is not None and nb is not None:
+                    want = pyop[op](na, nb)
+                else:
+                    ra = int(la.split("#")[-1].rstrip(")")) if "#" in la else int(la.split("(")[1].rstrip(")"))
+                    rb = int(lb.split("#")[-1].rstrip(")")) if "#" in lb else int(lb.split("(")[1].rstrip(")"))
+                    want = pyop[op](ra, rb)
+                if got is not want and bad is None:
+                    bad = {"left": la, "right": lb, "got": got, "want": want}
+        except A.Unsupported as e:
+            R.fail("r6", "unanalysable/%s" % op, C.loc(g["sp"]), "abstract evaluation of %s met an unsupported construct: %s (fail closed)" % (path, e))
             continue
-        nulls = 0
-        for key, arm, p in arms_flat(top[0]):
-            if isinstance(key, tuple) and "Null" in key:
-                nulls += 1
-                v = strip(arm_value(arm["body"]))
-                R.check(v.get("k") == "lit" and v.get("v") is False, "r4", "%s/null%s" % (path.split("::")[-1], key),
-                        C.loc(arm["sp"]), "ordering comparison with null must be false; arm %s yields %s" % (key, ekey(v)))
-        R.floor("r4", "null arms in %s" % path.split("::")[-1], nulls, 2)
-        # slow path sign branches
-        for sp in local_callees(C, g)[1:]:
-            ms = matches_over_tuple(sp["body"], {FV}, 2)
-            if not ms:
-                continue
-            found = 0
-            for key, arm, p in arms_flat(ms[0]):
-                if key not in (("Int64", "Uint64"), ("Uint64", "Int64")):
-                    continue
-                # find `x < 0` test in the arm and the constant it yields
-                for n in walk(arm["body"]):
-                    if n.get("k") != "if":
-                        continue
-                    c = comparison(n["cond"])
-                    if not c or not (is_zero_lit(c[2]) and c[0] == "<"):
-                        continue
-                    found += 1
-                    const = strip(arm_value(n["then"]))
-                    val = const.get("v") if const.get("k") == "lit" else None
-                    # signed operand negative, other operand > i64::MAX:
-                    # (Int64 l, Uint64 r): l < r  => `<`,`<=` true ; `>`,`>=` false.  Mirror for (Uint64, Int64).
-                    signed_is_left = key == ("Int64", "Uint64")
-                    less = want in ("<", "<=")
-                    expect = less if signed_is_left else (not less)
-                    R.check(val is expect, "r4", "%s/sign%s" % (sp["path"].split("::")[-1], key), C.loc(n["sp"]),
-                            "in %s arm %s: negative signed operand vs. unsigned beyond i64::MAX must give %s for `%s`, code gives %s"
-                            % (sp["path"], key, expect, want, val))
-            R.floor("r4", "sign branches in %s" % sp["path"].split("::")[-1], found, 2)
-
-    # equals symmetric mixed arms
-    eqfn = None
-    for f, m, entries in tables:
-        for e in entries.get("Equals", []):
-            eqfn = e[0]
-    g = C.fn(eqfn) if eqfn else None
-    if g is None:
-        R.fail("r4", "anchor:equals", "-", "function dispatched for Equals not found")
-    else:
-        mixed = {}
-        for mm in matches_over_tuple(g["body"], {FV}, 2):
-            for key, arm, p in arms_flat(mm):
-                if key in (("Int64", "Uint64"), ("Uint64", "Int64")):
-                    ops = sorted(c[0] for c in (comparison(n) for n in walk(arm["body"])) if c)
-                    consts = sorted(str(n.get("v")) for n in walk(arm["body"]) if n.get("k") == "lit" and n.get("lk") == "bool")
-                    conv = sorted((x.get("callee", ""), tuple(C.S(t) for t in x.get("gargs", [])))
-                                  for x in calls_in(arm["body"]) if x.get("name") == "try_from")
-                    mixed[key] = (ops, consts, len(conv))
-        R.floor("r4", "mixed integer arms in equals", len(mixed), 2)
-        if len(mixed) == 2:
-            a, b = mixed[("Int64", "Uint64")], mixed[("Uint64", "Int64")]
-            R.check(a == b and set(a[0]) == {"=="} and a[1] == ["False"], "r4", "equals/mixed-symmetric", C.loc(g["sp"]),
-                    "mixed-integer arms of equals differ or are not (==, ==, false): %s vs %s" % (a, b))
+        R.extra.setdefault("r6_pairs", {})[op] = n
+        R.check(bad is None, "r6", "table/%s" % op, C.loc(g["sp"]),
+                "%s (operator %s) gives %s for (%s, %s); the definition gives %s"
+                % (path, op, bad and bad["got"], bad and bad["left"], bad and bad["right"], bad and bad["want"]),
+                detail={"pairs": n})
 
     # ---- r5: optional pass-through
     n5 = 0
